@@ -10,7 +10,9 @@ TV   Api_Trace kind "c15": for every input (accepted or not, both grammars: corp
 import random, json
 import vlib, corpus, svgen, tree, treecheck, pp
 
-JUNK = ["\n@@@", "\nend", "\nmodule half (input a", "\n) ] }", "\n`celldefine\n@"]
+# unparsable suffixes; the last three END INSIDE a token class that is read greedily (system task name, identifier,
+# number): the end of input right behind it is where a streaming-style parser would ask for more instead of failing
+JUNK = ["\n@@@", "\nend", "\nmodule half (input a", "\n) ] }", "\n`celldefine\n@", "\nmodule c; initial $fini", "\nmodule d; localparam P = $clog2", "\nmodule e; wire [7"]
 LIBJUNK = ["\n@@@", "\nlibrary", "\n) )"]
 
 
@@ -26,8 +28,10 @@ def damage(text, rng):
         return text[:o] + text[o + len(t):]
     if r < 0.55:
         return text[:o] + t + " " + text[o:]
-    if r < 0.8:
+    if r < 0.7:
         return text[:o]
+    if r < 0.8:
+        return text[:o + len(t)]          # the text ends right behind a token (no trailing blank or newline)
     return text[:o] + "@" + text[o:]
 
 
